@@ -138,6 +138,11 @@ def check_site(case, which):
                         if t in (n, objs[n].name) and t not in visible_names:
                             fails.append({'observed': f'{page}: an entry for hidden {n} ({t!r}) is listed', 'required': 'no row in any index',
                                           'class': f'hidden-entry:{n}@{page}', 'hidden': n})
+            # the summary of undocumented objects lists each object by its full name
+            for t in idx['pages'].get('undoccedSummary.html', {}).get('code_texts', []):
+                if t in hidden:
+                    fails.append({'observed': f'undoccedSummary.html: hidden {t} is listed', 'required': 'no row in any index',
+                                  'class': f'hidden-entry:{t}@undoccedSummary.html', 'hidden': t})
             for page, info in idx['pages'].items():
                 # 'overrides' / 'overridden in' / 'known subclasses' notes list objects: none of them may be hidden
                 for e in info['entries']:
